@@ -100,6 +100,16 @@ def main(table_path, out_path):
                     flt = LevelLimit(c["L"])
                     lvl1 += [FakeDeme(f"x{i}", 1) for i in range(c["a1"] - 2)]
                     lvl2 = [FakeDeme(f"c{i}", 2, True) for i in range(c["a2"])] + [FakeDeme(f"d{i}", 2, False) for i in range(c["i2"])]
+                    # a well-formed tree: the existing level-2 demes are children of A, of B and of a level-1 deme
+                    # that has already stopped (its children may still be running)
+                    finished = FakeDeme("F", 1, active=False)
+                    lvl1.append(finished)
+                    for k, ch in enumerate(lvl2):
+                        [A, B, finished][k % 3].children.append(ch)
+                    for x in lvl1:
+                        if x not in (A, B, finished):
+                            root.children.append(x)
+                    root.children += [A, B, finished]
                     for p in ("root", "A", "B"):
                         inds.setdefault(p, [])
                     sig += (f"L={c['L']} active(level1)={c['a1']} active(level2)={c['a2']} inactive(level2)={c['i2']} "
